@@ -178,7 +178,9 @@ def ostep (s : OSt) : OEv → Except Flag OSt
       (match f.opened with
        | some o =>
          -- (the follower's `open` of the fresh instance may be logged before the builder's `create` of it)
-         if o = ino then .ok { s with phase := .building, cur := some ino, fol := some { f with openedUnderLock := false } }
+         if o = ino then
+           (if f.wasLocked then .ok { s with phase := .building, cur := some ino, fol := some { f with openedUnderLock := false } }
+            else .error .createAfterFree)
          else .error (if f.openedUnderLock then .staleOpen else .rebuiltDuringFollow)
        | none =>
          -- no descriptor yet: safe only if the follower still believes the target locked (`CreateSafe` of the proofs)
